@@ -89,12 +89,13 @@ func rootOf(doc []byte, hs HSpec, loader *mapLoader, ownTree bool) (string, erro
 }
 
 func genC03(out *Out, r *Rng, tier string, n int, shard int) {
-	k, reps, muts := 6, 3, 6
+	k, kx, reps, muts := 6, 3, 3, 6
 	if tier == "thorough" {
-		k, reps, muts = 16, 8, 20
+		k, kx, reps, muts = 16, 6, 8, 20
 	}
 	for i := 0; i < n; i++ {
 		g := NewDocGen(r, 1+r.Intn(3))
+		g.nativeInStr = true
 		root := g.node(g.sch.Root, 0, r.Bool())
 		hs := hPoseidon()
 		if r.Chance(25) {
@@ -115,24 +116,38 @@ func genC03(out *Out, r *Rng, tier string, n int, shard int) {
 		}
 		root0 := run.Mz.Root().BigInt().String()
 		nren := 0
-		for j := 0; j < k+2; j++ {
+		bag0 := entryBag(run.Mz)
+		for j := 0; j < k+kx; j++ {
 			p := randomPresentation(r)
+			p.lexAlt = 0
 			if j >= k {
-				// lexical respellings inside arrays: judged separately (known finding F5)
-				p.lexAlt = 2
+				// equivalent number spellings with a different lexical form ("5.0", "05", "5e0" for "5"): judged one by one,
+				// because they can move elements of arrays (known finding F5)
+				p.lexAlt, p.lexNumOnly = 2, true
 			}
 			doc := g.Render(root, p)
 			if j >= k {
-				if p.usedArrayLexAlt {
-					rt, err := rootOf(doc, hs, loader, true)
+				if p.usedLexAlt {
+					r2 := runMerklize(doc, hs, loader, true)
 					var w2 []string
-					if err != nil {
-						w2 = append(w2, "re-presentation rejected: "+err.Error())
-					} else if rt != root0 {
-						w2 = append(w2, fmt.Sprintf("root changed when an element of an array was written with another lexical form of the same value; doc=%s", trunc(string(doc), 600)))
+					tg := []string{"shape:number-respelling", "h:" + hs.Name}
+					rt := ""
+					if r2.Err != nil {
+						w2 = append(w2, "re-presentation rejected: "+r2.Err.Error())
+					} else if rt = r2.Mz.Root().BigInt().String(); rt != root0 {
+						dumpFailure("c03lex", map[string][]byte{"doc0.json": doc0, "doc.json": doc, "context.json": g.ContextDoc()})
+						w2 = append(w2, fmt.Sprintf("root changed when a number was written with another lexical form of the same value; doc=%s", trunc(string(doc), 600)))
+						// what changed: only the positions of array elements, or more than that
+						if bagEq(bag0, entryBag(r2.Mz)) {
+							tg = append(tg, "shape:array-positions-only")
+						}
 					}
-					out.Emit(Case{Op: "none", In: J{"doc": string(doc), "base": string(doc0)}, Impl: J{"ok": rt}, Prop: propOf(w2),
-						Tags: []string{"shape:array-lexical-respelling", "h:" + hs.Name}, NT: true})
+					if p.usedArrayLexAlt {
+						tg = append(tg, "respelled:in-array")
+					} else {
+						tg = append(tg, "respelled:outside-arrays")
+					}
+					out.Emit(Case{Op: "none", In: J{"doc": string(doc), "base": string(doc0)}, Impl: J{"ok": rt}, Prop: propOf(w2), Tags: tg, NT: true})
 				}
 				continue
 			}
@@ -144,6 +159,7 @@ func genC03(out *Out, r *Rng, tier string, n int, shard int) {
 					break
 				}
 				if rt != root0 {
+					dumpFailure("c03", map[string][]byte{"doc0.json": doc0, "doc.json": doc, "context.json": g.ContextDoc()})
 					why = append(why, fmt.Sprintf("root changed under a meaning-preserving re-presentation (ownTree=%v): %s vs %s; doc=%s", rep%2 == 0, rt, root0, trunc(string(doc), 600)))
 					break
 				}
@@ -189,6 +205,40 @@ func genC03(out *Out, r *Rng, tier string, n int, shard int) {
 		c.Prop = propOf(why)
 		out.Emit(c)
 	}
+}
+
+// entryBag: the entries of a merklized document with the array positions erased from their keys, as a multiset
+func entryBag(mz *merklize.Merklizer) map[string]int {
+	bag := map[string]int{}
+	for _, e := range mz.VerifEntries() {
+		var k []string
+		for _, part := range e.VerifKeyParts() {
+			if s, ok := part.(string); ok {
+				k = append(k, s)
+			} else {
+				k = append(k, "#")
+			}
+		}
+		v, err := e.ValueMtEntry()
+		vs := "?"
+		if err == nil {
+			vs = v.String()
+		}
+		bag[fmt.Sprintf("%q=%s", k, vs)]++
+	}
+	return bag
+}
+
+func bagEq(a, b map[string]int) bool {
+	if len(a) != len(b) {
+		return false
+	}
+	for k, n := range a {
+		if b[k] != n {
+			return false
+		}
+	}
+	return true
 }
 
 func trunc(s string, n int) string {
